@@ -40,7 +40,7 @@ def cases(tier):
     n = 2 if tier == "quick" else 3
     out = [{"name": f"history/{n}calls", "kind": "history", "n": n}, {"name": "selection", "kind": "selection"},
            {"name": "refusal", "kind": "refusal"}, {"name": "element-masses", "kind": "masses"},
-           {"name": "real-typing-history", "kind": "realhist"}, {"name": "molgen-typing-sequences", "kind": "molgenhist"}]
+           {"name": "real-typing-history", "kind": "realhist"}, {"name": "molgen-typing-sequences", "kind": "molgenhist"}, {"name": "file-sequences", "kind": "filehist"}]
     return out
 
 
@@ -202,6 +202,20 @@ def run_case(case, g, tier, res):
             return len(problems)
 
         explore_case(res, h, tier, on_path=on_path)
+    elif kind == "filehist":
+        def h(c):
+            k = c.fresh_int("history", 0, len(FILE_HISTORIES) - 1).__index__()
+            which = c.fresh_int("molecule", 0, len(TYPABLE) - 1).__index__()
+            problems = file_sequence(g, ff, FILE_HISTORIES[k], TYPABLE[which])
+
+            def build(mv, c):
+                return (f"C20:file-sequence:{problems[0][0] if problems else ''}", f"typing {TYPABLE[which]} with copies of the bundled files after the calls {FILE_HISTORIES[k]}: {[p_[1] for p_ in problems[:3]]}",
+                        {"kind": "filehist", "history": k, "molecule": TYPABLE[which]})
+
+            c.prove(len(problems) == 0, "copies of the bundled files give the defaults' result, whatever files were used before", build)
+            return len(problems)
+
+        explore_case(res, h, tier, on_path=on_path)
     elif kind == "molgenhist":
         def h(c):
             first = c.fresh_int("first", 0, len(TYPABLE) - 1).__index__()
@@ -227,6 +241,68 @@ def run_case(case, g, tier, res):
             return len(bad)
 
         explore_case(res, h, tier, on_path=on_path)
+
+
+# earlier calls (rule file, parameter file) before the call under test; R = reduced rule file (alkane types only), F / P = copies
+# of the bundled rule / parameter files, None = bundled default
+FILE_HISTORIES = [[], [("R", "P")], [("R", None)], [(None, None)], [("R", "P"), (None, None)], [("F", None)], [(None, "P")]]
+
+
+def _file_copies(ff):
+    """copies of the bundled files and a reduced rule file in a scratch directory (returned: dict tag -> path)"""
+    import os
+    import tempfile
+    from importlib.resources import files
+
+    d = tempfile.mkdtemp(prefix="symx-c20-")
+    rules = files("gbigsmiles").joinpath("data", "opls.par").read_text()
+    params = files("gbigsmiles").joinpath("data", "ffnonbonded.itp").read_text()
+    keep = ("opls_135", "opls_136", "opls_137", "opls_138", "opls_139", "opls_140")
+    reduced = "\n".join(l for l in rules.splitlines() if l.strip().startswith("*") or any(f"| {k} " in l.replace("   ", " ").replace("  ", " ") for k in keep))
+    out = {}
+    for tag, text in (("F", rules), ("P", params), ("R", reduced)):
+        out[tag] = os.path.join(d, {"F": "rules_copy.par", "P": "params_copy.itp", "R": "rules_alkanes.par"}[tag])
+        with open(out[tag], "w") as fh:
+            fh.write(text)
+    out["dir"] = d
+    return out
+
+
+def file_sequence(g, ff, history, smi):
+    """type `smi` with copies of the bundled files after a history of calls with other files; the result equals (by value)
+    the result of a fresh process using the defaults"""
+    import shutil
+
+    problems = []
+    paths = _file_copies(ff)
+    try:
+        def snapshot(params, mol):
+            return [(a.GetIdx(), a.GetSymbol(), params[a.GetIdx()].bond_type_name, float(params[a.GetIdx()].mass), float(params[a.GetIdx()].charge),
+                     float(params[a.GetIdx()].sigma), float(params[a.GetIdx()].epsilon)) for a in mol.GetAtoms() if a.GetIdx() in params]
+
+        ff._global_nonbonded_itp_file = ff._global_smarts_rule_file = ff._global_assignment_class = None
+        ref_p, ref_m = g.Molecule(smi).generate().get_forcefield_types(None, None)
+        ref = snapshot(ref_p, ref_m)
+        ff._global_nonbonded_itp_file = ff._global_smarts_rule_file = ff._global_assignment_class = None
+        for (r, p_) in history:
+            try:
+                g.Molecule("CCCC").generate().get_forcefield_types(paths.get(r), paths.get(p_))
+            except ff.FfAssignmentError:
+                pass
+            except Exception as e:
+                problems.append(("history-call", f"the earlier call with files ({r}, {p_}) raised {type(e).__name__}"))
+                return problems
+        try:
+            got_p, got_m = g.Molecule(smi).generate().get_forcefield_types(paths["F"], paths["P"])
+        except Exception as e:
+            problems.append(("copies-raise", f"typing with copies of the bundled files raised {type(e).__name__}: {e}"))
+            return problems
+        got = snapshot(got_p, got_m)
+        if got != ref:
+            problems.append(("copies-differ", f"copies of the bundled files give another result than the defaults: {[x for x, y in zip(got, ref) if x != y][:2]}"))
+    finally:
+        shutil.rmtree(paths["dir"], ignore_errors=True)
+    return problems
 
 
 # molecules (single-token, generated through the public API) the bundled rules type completely / cannot type completely
@@ -452,6 +528,11 @@ def replay(rp, gb):
             refused = True
         want = len(tok.bond_descriptors) > 0
         return refused != want, f"refused={refused} open={len(tok.bond_descriptors)}"
+    if rp["kind"] == "filehist":
+        import gbigsmiles.forcefield_helper as ffp
+
+        problems = file_sequence(gb, ffp, FILE_HISTORIES[rp["history"]], rp["molecule"])
+        return bool(problems), f"{[p_[1] for p_ in problems[:4]]}"
     if rp["kind"] == "molgenhist":
         import gbigsmiles.forcefield_helper as ffp
 
